@@ -33,6 +33,7 @@ func main() {
 	c := evid.New(*id, *tier, seed, ck.Level)
 	if *replay != "" {
 		c.Extra("replay_of", *replay)
+		c.Replay = *replay
 	}
 	ck.Run(c)
 	os.Exit(c.Finish())
